@@ -17,10 +17,14 @@ import (
 	"verifharness/props/c17"
 	"verifharness/props/c19"
 	"verifharness/props/c20"
+	"verifharness/props/copyx"
 )
 
 var table = map[string]func(lib.Opts){
 	"C01": c01.Run,
+	"C03": copyx.Run("C03"),
+	"C04": copyx.Run("C04"),
+	"C14": copyx.Run("C14"),
 	"C05": c05.Run,
 	"C06": c06.Run,
 	"C12": c12.Run,
